@@ -257,9 +257,16 @@ type realInfo struct {
 	mtime int64
 }
 
+// specTruth: set by a case whose tree holds objects beyond PATH_MAX - stat by full path fails there although
+// the object exists, so the harness's own knowledge of the tree it built is the truth (root -> nodes)
+var specTruth func(p string) (realInfo, bool)
+
 func statReal(p string) (realInfo, bool) {
 	st, err := os.Stat(p)
 	if err != nil {
+		if specTruth != nil && errors.Is(err, syscall.ENAMETOOLONG) {
+			return specTruth(p)
+		}
 		return realInfo{}, false
 	}
 	ri := realInfo{name: filepath.Base(p), isDir: st.IsDir(), mtime: st.ModTime().Unix()}
@@ -347,6 +354,33 @@ func c06Stream(o *out, r *rng, thorough bool) {
 	// a directory whose own path is just short of PATH_MAX, holding an entry whose full path is beyond it:
 	// the server cannot examine that entry; it is left out - of the bulk listing as of the entry-by-entry
 	// enumeration - and hides nothing else
+	// KNOWN FINDING (open, known_findings.txt C06-path-max): an existing regular file / directory whose full
+	// path is beyond PATH_MAX is invisible - left out of listings, STAT answers -1 - because every entry is
+	// examined by its full path name. The oracle of this case is the tree itself.
+	{
+		t := &tree{}
+		t.add(tnode{path: "/", kind: 'd', mtime: genMtime(r)})
+		deep := ""
+		for i := 0; i < 16; i++ {
+			deep += "/" + strings.Repeat(string(rune('a'+i)), 240)
+			t.add(tnode{path: deep, kind: 'd', mtime: genMtime(r)})
+		}
+		long := deep + "/" + strings.Repeat("Y", 255)
+		t.add(tnode{path: deep + "/short.bin", kind: 'f', size: 77, seed: 5, mtime: genMtime(r)})
+		t.add(tnode{path: long, kind: 'f', size: 1234, seed: 6, mtime: genMtime(r)})
+		specTruth = func(p string) (realInfo, bool) {
+			for _, n := range t.nodes {
+				if strings.HasSuffix(p, n.path) && (n.kind == 'f' || n.kind == 'd') {
+					return realInfo{name: filepath.Base(n.path), isDir: n.kind == 'd', size: n.size, mtime: n.mtime}, true
+				}
+			}
+			return realInfo{}, false
+		}
+		o.count("beyond-path-max:regular-file")
+		runOne(t, []creq{{op: opOpenDir, path: deep}, {op: opReadDir}, {op: opOpenDir, path: deep}, {op: opReadDirEntry}, {op: opReadDirEntry},
+			{op: opReadDirEntry}, {op: opStatFile, path: long}}, "deep:file-beyond-path-max")
+		specTruth = nil
+	}
 	{
 		t := &tree{}
 		t.add(tnode{path: "/", kind: 'd', mtime: genMtime(r)})
